@@ -43,3 +43,13 @@ Fixpoint until_nul (l : text) : text :=
   | [] => []
   | c :: r => if c =? 0 then [] else c :: until_nul r
   end.
+
+(* [strip_char c s] = Some r when s = c :: r.  (Written with a test rather than a numeral pattern:
+   numeral patterns on N expand into large decision trees.) *)
+Definition strip_char (c : N) (s : text) : option text :=
+  match s with
+  | x :: r => if x =? c then Some r else None
+  | [] => None
+  end.
+Definition head_is (c : N) (s : text) : bool :=
+  match s with x :: _ => x =? c | [] => false end.
